@@ -994,7 +994,9 @@ pub fn run_thread_case(c: &ThreadCase) -> ThreadOutcome {
         .arg(c.scenario.to_string())
         .arg(c.calls.to_string())
         .env("CARGO_NET_OFFLINE", "true")
-        .env("MIRIFLAGS", format!("-Zmiri-seed={} -Zmiri-preemption-rate={}", c.miri_seed, c.preemption_rate))
+        // deterministic floats: by default Miri adds random ulp errors to some float
+        // operations, which made a sequential reference and a thread disagree on correct code
+        .env("MIRIFLAGS", format!("-Zmiri-seed={} -Zmiri-preemption-rate={} -Zmiri-deterministic-floats", c.miri_seed, c.preemption_rate))
         .env_remove("RUSTFLAGS")
         .output();
     let out = match out {
@@ -1003,6 +1005,9 @@ pub fn run_thread_case(c: &ThreadCase) -> ThreadOutcome {
     };
     let so = String::from_utf8_lossy(&out.stdout);
     let se = String::from_utf8_lossy(&out.stderr);
+    if let Some(l) = so.lines().find(|l| l.starts_with("THREADS-HARNESS")) {
+        return ThreadOutcome::Harness(l.to_string());
+    }
     if let Some(l) = so.lines().find(|l| l.starts_with("THREADS-VIOLATION")) {
         return ThreadOutcome::Violation("impure(thread-schedule)".into(), l.to_string());
     }
